@@ -155,6 +155,19 @@ def run(ctx):
             ctx.problem('correspondence', 'suite poly_constrained_dual: model and implementation disagree on %s; impl=%s model=%s'
                         % (pduals[idx][0], pduals[idx][2][:900], model_out[:900]), inputs=pduals[idx][0], failing_input_found=False)
     from harness.props import lattice
+    if True:
+        import sageopt as so
+        from sageopt.relaxations import sage_polys as sp_
+        x_ = so.standard_poly_monomials(2)
+        f_ = x_[0] ** 4 + x_[1] ** 2 - x_[0] * x_[1] + x_[0]
+        bl = [('poly_relaxation', fm, (lambda fm=fm: sp_.poly_relaxation(f_, form=fm))) for fm in ('primal', 'dual')]
+        bl += [('poly_constrained_relaxation', fm, (lambda fm=fm: sp_.poly_constrained_relaxation(f_, [4 - x_[0] ** 2 - x_[1] ** 2], [], form=fm, p=0, q=1, ell=0)))
+               for fm in ('primal', 'dual')]
+        why_s, ns_ = lattice.scripted_no_certificate(bl, ctx.rng)
+        ctx.evaluations += ns_
+        ctx.suites['scripted_solver_outcomes'] = {'cases': ns_, 'failure': why_s}
+        if why_s:
+            ctx.problem('oracle', 'property fails on the implementation: ' + why_s, inputs={'suite': 'scripted_solver_outcomes'}, failing_input_found=True)
     why, nsolves = lattice.lattice_c05(ctx)
     ctx.evaluations += nsolves
     ctx.suites['option_level_lattice'] = {'solves': nsolves, 'failure': why}
